@@ -26,6 +26,7 @@ inductive Err where
   | sortMixed        -- an ordering raises, and which exception comes first depends on the sort algorithm
   | ambiguous        -- AmbiguousMethodException (two overloads accept the receiver, e.g. `delete` on a dict under yaql.iterableDicts)
   | tooLarge         -- CollectionTooLargeException (yaql.limitIterators)
+  | unknownMethod    -- NoMethodRegisteredException (e.g. a set method in a context made with `no_sets`)
   | wrappedStop      -- WrappedException: a StopIteration met while the HOST consumes a lazy result (`yaql.convertOutputData` off)
   | outOfDomain      -- input outside the modelled domain (no prediction)
 deriving DecidableEq, Repr, Inhabited
@@ -743,10 +744,12 @@ def viewElems : ViewKind → KV → VL
   | .values, d => dictValues d
   | .items, d => dictItems d
 
-/-! ### the engine options the collection functions and the finaliser look at
+/-! ### the engine options and context flags the collection functions and the finaliser look at
 
 A `Statement` is evaluated under the options of the engine that parsed it (`YaqlFactory.create(options)`,
-`engine.copy(options)`, `engine(text, options)`).  Every definition below that depends on an option takes the record. -/
+`engine.copy(options)`, `engine(text, options)`), in a context whose standard library was registered by
+`yaql.create_context(..)` with ITS flags (`group_by_agg_fallback`, `no_sets`).  Every definition below that depends on an
+option or a flag takes the record. -/
 
 structure Opts where
   /-- `yaql.iterableDicts`: a parameter declared `Iterable()` accepts a dictionary (and iterates its keys) -/
@@ -761,6 +764,10 @@ structure Opts where
   limit : Option Nat := none
   /-- `yaql.convertOutputData`: the result passes `convert_output_data`; off, `evaluate()` hands the run-time object out -/
   convertOutput : Bool := true
+  /-- `create_context(group_by_agg_fallback=..)`: `groupBy` retries a failing aggregator in the pre-1.1.1 style -/
+  aggFallback : Bool := true
+  /-- `create_context(no_sets=True)`: the set functions are not registered -/
+  noSets : Bool := false
 deriving Repr, DecidableEq, Inhabited
 
 /-- `utils.limit_iterable` over a one-shot iterator: after `n` elements the next pull raises - if there is a next
@@ -1224,7 +1231,7 @@ def runOp1 (opts : Opts) (op : Op) (o : Obj) : R Obj :=
     let g ← groupsM k v xs []
     match agg with
     | none => lazyOk (g.map fun p => tuple [p.1, list p.2])
-    | some a => pure (.lazy (groupAggM a none true g))
+    | some a => pure (.lazy (groupAggM a none opts.aggFallback g))
   | .zip colls => do
     let s ← o.it opts
     let ss := s :: colls.map LSeq.ofList
@@ -1692,6 +1699,15 @@ def Op.usesPlus : Op → Bool
   | .mergeWith _ f g _ => f.isSome || g.isSome
   | _ => false
 
+/-- what a context made with `create_context(no_sets=True)` lacks: the set functions (`set(..)`, `isSet(..)`: no such
+    function; `toSet`, `union` ...: no such method; a set literal among the arguments of `-` / `<` / `+` is a call of `set`) -/
+def Op.needsSets : Op → Option Err
+  | .setFn | .isSet => some .unknownFunction
+  | .toSet | .union _ | .intersect _ | .difference _ | .symmetricDifference _ | .add _ | .remove _ => some .unknownMethod
+  | .minus _ | .setCmp _ _ => some .unknownFunction
+  | .plusRight (Value.set _) | .plusLeft (Value.set _) => some .unknownFunction
+  | _ => none
+
 /-- a dictionary among the arguments the operation hands to its lambdas / to `+` -/
 def Op.argsHoldDict : Op → Bool
   | .sum (some v) | .aggregate _ (some v) | .accumulate _ (some v) => Yaql.Seq.holdsDict v
@@ -1714,7 +1730,15 @@ def Op.argsHoldColl : Op → Bool
   | .join other _ _ => overNestedL 0 other
   | _ => false
 
-def runOp (opts : Opts) (op : Op) (o : Obj) : R Obj := do
+def noSetsErr (op : Op) (o : Obj) : Option Err :=
+  match op.needsSets with
+  | some e => some e
+  | none =>
+    match op, o with
+    | .len, .val (Value.set _) | .len, .view .keys _ | .len, .view .items _ => some .noMethod   -- (the `len` of sets is one of the set functions)
+    | _, _ => none
+
+def runOpCore (opts : Opts) (op : Op) (o : Obj) : R Obj := do
   if o.carriesLazy && !op.linear then .error .outOfDomain
   -- under `yaql.limitIterators` the operands of `+` pass the limiter: `plus` does not follow that (collections added up)
   -- ... and so do the receivers of collection methods inside a lambda (`Lam.evalR` does not follow that either)
@@ -1739,6 +1763,12 @@ def runOp (opts : Opts) (op : Op) (o : Obj) : R Obj := do
   | .val (dict d) =>
     pure (if mutableResult op || (op.handsBack && (match o with | .mdict _ => true | _ => false)) then .mdict d else r)
   | r => pure r
+
+/-- one operation on a run-time object, under the engine's options and the context's flags -/
+def runOp (opts : Opts) (op : Op) (o : Obj) : R Obj :=
+  match (if opts.noSets then noSetsErr op o else none) with
+  | some e => .error e
+  | none => runOpCore opts op o
 
 /-- the elements every fresh iteration of the expression's own `$` yields, when `$` can be iterated
     more than once: a sequence / input set, or a one-shot iterator that was memorized by the binder
@@ -1793,11 +1823,27 @@ def rootObj (opts : Opts) (binder : Option Op) (data : Value) : R Obj := do
 /-- what `rootItems` is asked about: the document as bound to `$` -/
 def boundData (opts : Opts) (data : Value) : Value := if opts.convertInput then convertInput data else data
 
+/-- written in function style (`set(x)`, `isSet(x)`): the function is looked up BEFORE its argument - the stages in front of
+    it - is evaluated -/
+def Op.functionStyleSet : Op → Bool
+  | .setFn | .isSet => true
+  | .plusLeft (Value.set _) => true        -- (`set(..) + <stages>`: the left operand comes first)
+  | _ => false
+
+/-- what a second consumer of `$` reads (`none`: not followed - also a set document in a context without the set functions,
+    whose `$.len()` has no overload) -/
+def rootOf (opts : Opts) (binder : Option Op) (data : Value) : Option VL :=
+  if opts.noSets && (match data with | Value.set _ => true | _ => false) then none
+  else rootItems binder (boundData opts data)
+
 /-- the stages of a pipeline, before finalisation -/
 def runStages (opts : Opts) (binder : Option Op) (ops : List Op) (data : Value) : R Obj := do
+  -- in a context without the set functions an unknown function among the stages is met first, whatever the stages inside
+  -- it would do
+  if opts.noSets && ops.any Op.functionStyleSet then .error .unknownFunction
   let root ← rootObj opts binder data
   -- a second consumer of `$` under a limit / over a raw dictionary is not followed
-  ops.foldlM (fun o op => runOpR opts (rootItems binder (boundData opts data)) op o) root
+  ops.foldlM (fun o op => runOpR opts (rootOf opts binder data) op o) root
 
 /-- `let(binder($)) -> $.op1(...).op2(...)...` (or without binder), then finalisation -/
 def runPipeLet (opts : Opts) (binder : Option Op) (ops : List Op) (data : Value) : R Value := do
